@@ -172,6 +172,100 @@ Proof.
   rewrite delivered_to_app Hd IH Hm. by destruct m.
 Qed.
 
+(** ** the general form: a subscriber whose reachability changes *)
+
+
+
+
+Lemma liveb_live v p : liveb v p = true ↔ live v p.
+Proof. rewrite /liveb /live andb_true_iff. done. Qed.
+
+Lemma handed_to_app p f1 f2 : handed_to p (f1 ++ f2) = handed_to p f1 ++ handed_to p f2.
+Proof. apply omap_app. Qed.
+
+Lemma handed_forwards v es e p subs :
+  NoDup subs →
+  handed_to p (forwards v es e subs) = if decide (p ∈ subs) then (if reachable v p then [e] else []) else [].
+Proof.
+  induction 1 as [|q subs Hq Hn IH].
+  { case_decide as Hd; [|done]. by apply elem_of_nil in Hd. }
+  change (forwards v es e (q :: subs)) with ([(q, route v (Some q) e (Some es))] ++ forwards v es e subs).
+  rewrite handed_to_app IH.
+  assert (handed_to p [(q, route v (Some q) e (Some es))] =
+          if decide (q = p) then (if reachable v p then [e] else []) else []) as ->.
+  { rewrite /handed_to /route /reachable /unreachable /=.
+    destruct (is_local v q) eqn:E1, (registered v q) eqn:E2, (v_remote v) eqn:E3; simpl;
+      repeat case_decide; subst; rewrite ?E1 ?E2 ?E3 //=. }
+  repeat case_decide; try done; try (exfalso; set_solver).
+  - by rewrite app_nil_r.
+Qed.
+
+Lemma delivered_forwards' v es e p subs :
+  NoDup subs →
+  delivered_to p (forwards v es e subs) = if decide (p ∈ subs) then (if liveb v p then [e] else []) else [].
+Proof.
+  intros Hn. rewrite delivered_forwards //. pose proof (liveb_live v p).
+  destruct (liveb v p); repeat case_decide; try done; exfalso; naive_solver.
+Qed.
+
+Section general.
+Context (proj : pid → list (pid * outcome) → list msg) (ok : view → pid → bool).
+Hypothesis proj_nil : ∀ p, proj p [] = [].
+Hypothesis proj_app : ∀ p f1 f2, proj p (f1 ++ f2) = proj p f1 ++ proj p f2.
+Hypothesis proj_forwards : ∀ v es e p subs,
+  NoDup subs → proj p (forwards v es e subs) = if decide (p ∈ subs) then (if ok v p then [e] else []) else [].
+
+Lemma run_between_g es p h : ∀ subs,
+  NoDup subs → proj p (es_run es subs h).2 = between_g ok p (bool_decide (p ∈ subs)) h.
+Proof.
+  induction h as [|[v m] h IH]; intros subs Hn; simpl; [done|].
+  pose proof (es_step_nodup v es subs m Hn) as Hn1.
+  destruct m as [q|q|e]; simpl in *.
+  - specialize (IH _ Hn1). destruct (es_run es (subs_add q subs) h) as [s2 f2]. simpl in *.
+    rewrite IH. f_equal. apply eq_true_iff_eq.
+    rewrite orb_true_iff !bool_decide_eq_true elem_of_subs_add. naive_solver.
+  - specialize (IH _ Hn1). destruct (es_run es (subs_del q subs) h) as [s2 f2]. simpl in *.
+    rewrite IH. f_equal. apply eq_true_iff_eq.
+    rewrite andb_true_iff negb_true_iff !bool_decide_eq_true bool_decide_eq_false elem_of_subs_del. naive_solver.
+  - specialize (IH _ Hn1). destruct (es_run es (filter (λ q, unreachable v q = false) subs) h) as [s2 f2].
+    simpl in *. fold (forwards v es e subs). rewrite proj_app proj_forwards // IH. f_equal.
+    + destruct (decide (p ∈ subs)) as [Hp|Hp];
+        [rewrite (bool_decide_eq_true_2 (p ∈ subs)) //|rewrite (bool_decide_eq_false_2 (p ∈ subs)) //].
+    + f_equal. apply eq_true_iff_eq.
+      rewrite andb_true_iff negb_true_iff !bool_decide_eq_true elem_of_list_filter. naive_solver.
+Qed.
+End general.
+
+(* what is handed to [p] (inbox or remote), for every history and every [p] *)
+Lemma handed_between_g es p h subs :
+  NoDup subs → handed_to p (es_run es subs h).2 = between_g reachable p (bool_decide (p ∈ subs)) h.
+Proof. apply (run_between_g handed_to reachable); [done|apply handed_to_app|apply handed_forwards]. Qed.
+
+(* what reaches the inbox of [p], for every history and every [p] *)
+Lemma delivered_between_g es p h subs :
+  NoDup subs → delivered_to p (es_run es subs h).2 = between_g liveb p (bool_decide (p ∈ subs)) h.
+Proof. apply (run_between_g delivered_to liveb); [done|apply delivered_to_app|apply delivered_forwards']. Qed.
+
+Lemma between_g_live p h : ∀ on, live_while_on p on h → between_g liveb p on h = between p on (h.*2).
+Proof.
+  induction h as [|[v m] h IH]; intros on Hl; [done|]. destruct m as [q|q|e]; simpl in *; [by apply IH..|].
+  destruct Hl as [Hv Hl]. destruct on; simpl; [|by apply IH].
+  rewrite Hv //. f_equal. rewrite (live_reachable v p); [by apply liveb_live, Hv|]. by apply IH.
+Qed.
+
+(* C12, first clause: [p] is alive whenever an event is handled between its
+   Sub and the next Unsub *)
+Lemma once_between_while_subscribed es p h subs :
+  NoDup subs → live_while_on p (bool_decide (p ∈ subs)) h →
+  delivered_to p (es_run es subs h).2 = between p (bool_decide (p ∈ subs)) (h.*2).
+Proof. intros Hn Hl. rewrite delivered_between_g //. by apply between_g_live. Qed.
+
+Lemma live_always_while_on p h : ∀ on, Forall (λ x, live x.1 p) h → live_while_on p on h.
+Proof.
+  induction h as [|[v m] h IH]; intros on Hf; [done|]. apply Forall_cons in Hf as [Hv Hf].
+  destruct m; simpl; [by apply IH..|]. split; [|by apply IH]. intros _. by apply liveb_live.
+Qed.
+
 (* Subscribe twice = subscribe once (the object that holds the PID plays no role:
    there is none in the model; cf. [pointer_keys_refuted]) *)
 Lemma sub_idempotent_step v1 v2 es subs p :
@@ -287,6 +381,32 @@ Example c12_example :
   delivered_to (0, 2) r.2 = [EUser 2; EUser 3; EUser 4] ∧
   fed_back r.2 = [EDead (0, 3) (EUser 2) (Some es_ex)] ∧ r.1 = [(0, 2); (0, 1)].
 Proof. vm_compute. split_and!; try done. repeat constructor. Qed.
+
+(* non-vacuity of the weaker premise and of the general form: actor (0, 1)
+   subscribes, receives, stops while subscribed (its own ActorStoppedEvent ends
+   the subscription), misses an event, is spawned again under its id (not a
+   subscriber), subscribes again, receives; meanwhile (1, 1), the same id on
+   another node, stays subscribed and is handed everything *)
+Example c12_example_respawn :
+  let v a := {| v_addr := 0; v_remote := true; v_reg := if a : bool then [1; 9] else [9] |} in
+  let h1 := [(v true, Sub (0, 1)); (v true, Sub (1, 1)); (v true, Ev (EUser 1)); (v true, Unsub (0, 1));
+             (v false, Ev (EStopped (0, 1))); (v false, Ev (EUser 2)); (v true, Ev (ELife 0 (0, 1)));
+             (v true, Sub (0, 1)); (v true, Ev (EUser 3))] in
+  let h2 := [(v true, Sub (0, 1)); (v true, Sub (1, 1)); (v true, Ev (EUser 1));
+             (v false, Ev (EStopped (0, 1))); (v false, Ev (EUser 2)); (v true, Ev (ELife 0 (0, 1)));
+             (v true, Ev (EUser 3)); (v true, Sub (0, 1)); (v true, Ev (EUser 4))] in
+  live_while_on (0, 1) false h1 ∧ ¬ Forall (λ x, live x.1 (0, 1)) h1 ∧
+  delivered_to (0, 1) (es_run es_ex [] h1).2 = [EUser 1; EUser 3] ∧
+  ¬ live_while_on (0, 1) false h2 ∧
+  delivered_to (0, 1) (es_run es_ex [] h2).2 = [EUser 1; EUser 4] ∧
+  handed_to (1, 1) (es_run es_ex [] h2).2 =
+    [EUser 1; EStopped (0, 1); EUser 2; ELife 0 (0, 1); EUser 3; EUser 4] ∧
+  fed_back (es_run es_ex [] h2).2 = [EDead (0, 1) (EStopped (0, 1)) (Some es_ex)].
+Proof.
+  split_and!; try by vm_compute.
+  - intros Hf. eapply Forall_forall in Hf as [_ Hr]; [|do 5 right; left]. by vm_compute in Hr.
+  - intros Hl. vm_compute in Hl. naive_solver.
+Qed.
 
 (** * C09: the closed loop *)
 
@@ -701,16 +821,61 @@ Proof.
   rewrite /route. by destruct (is_local v p), (registered v p), (v_remote v).
 Qed.
 
-Lemma oracle12_holds_of_model np hist : oracle12_on np hist (model12 np hist) = true.
+Lemma pid12_eq q p : bool_decide (pid12 q = pid12 p) = bool_decide (q = p).
 Proof.
-  rewrite /oracle12_on bool_decide_eq_true /model12 /spec12.
-  apply Forall_fmap_ext_1, Forall_forall. intros i Hi%elem_of_seq. f_equal.
-  rewrite once_between_sub_and_unsub.
-  - apply NoDup_nil_2.
-  - apply Forall_fmap, Forall_forall. intros h _. split; simpl.
-    + by apply bool_decide_eq_true.
-    + apply bool_decide_eq_true. simpl. apply elem_of_cons. right. apply elem_of_seq. lia.
-  - rewrite -list_fmap_compose. f_equal.
+  apply bool_decide_ext. rewrite /pid12. split; [|by intros ->].
+  repeat case_decide; intros [=]; lia.
+Qed.
+
+Lemma users_app l1 l2 : users (l1 ++ l2) = users l1 ++ users l2.
+Proof. apply omap_app. Qed.
+
+Lemma reachable12 remote reg p :
+  reachable (v12 remote reg) (pid12 p) = if decide (p < 50) then bool_decide (p ∈ reg) else remote.
+Proof.
+  rewrite /reachable /unreachable /pid12 /is_local /registered /=.
+  case_decide; simpl; [by rewrite negb_involutive|by rewrite negb_involutive].
+Qed.
+
+Lemma spec12_of_machine remote p ops : ∀ reg on,
+  users (between_g reachable (pid12 p) on (hist12 remote reg ops)) =
+  spec12_p p (reachable (v12 remote reg) (pid12 p)) on ops.
+Proof.
+  induction ops as [|o ops IH]; intros reg on; [done|]. destruct o as [q ?|q ?|n|q|q]; simpl.
+  - by rewrite pid12_eq IH.
+  - by rewrite pid12_eq IH.
+  - rewrite users_app IH. f_equal. by destruct (on && reachable _ _).
+  - rewrite users_app IH.
+    assert (users (if on && reachable (v12 remote (filter (λ i, i ≠ q) reg)) (pid12 p)
+                   then [EStopped (0, q)] else []) = []) as -> by (by case_match).
+    simpl. rewrite -/(reachable _ _).
+    assert (reachable (v12 remote (filter (λ i, i ≠ q) reg)) (pid12 p) =
+            reachable (v12 remote reg) (pid12 p) && negb (bool_decide (q = p) && bool_decide (p < 50))) as ->; [|done].
+    rewrite !reachable12. case_decide; [|by rewrite (bool_decide_eq_false_2 (p < 50)) // andb_false_r /= andb_true_r].
+    rewrite (bool_decide_eq_true_2 (p < 50)) // andb_true_r. apply eq_true_iff_eq.
+    rewrite andb_true_iff negb_true_iff !bool_decide_eq_true bool_decide_eq_false elem_of_list_filter. naive_solver.
+  - rewrite !users_app IH.
+    set (r' := reachable (v12 remote (q :: reg)) (pid12 p)).
+    assert (∀ k (b : bool), users (if b then [ELife k (0, q)] else []) = []) as Hk2 by (by intros ? []).
+    rewrite -/(reachable _ _) -/r' !Hk2 /=.
+    assert (r' = reachable (v12 remote reg) (pid12 p) || (bool_decide (q = p) && bool_decide (p < 50))) as ->.
+    { rewrite /r' !reachable12. case_decide; [|by rewrite (bool_decide_eq_false_2 (p < 50)) // andb_false_r orb_false_r].
+      rewrite (bool_decide_eq_true_2 (p < 50)) // andb_true_r. apply eq_true_iff_eq.
+      rewrite orb_true_iff !bool_decide_eq_true elem_of_cons. naive_solver. }
+    f_equal. by destruct on, (reachable _ _ || _).
+Qed.
+
+Lemma oracle12_holds_of_model remote np ops :
+  np ≤ 50 → oracle12_on remote np ops (model12 remote np ops).1 (model12 remote np ops).2 = true.
+Proof.
+  intros Hnp. rewrite /oracle12_on bool_decide_eq_true /model12 /spec12 /=. f_equal.
+  - apply Forall_fmap_ext_1, Forall_forall. intros i Hi%elem_of_seq.
+    rewrite handed_between_g; [apply NoDup_nil_2|]. rewrite spec12_of_machine. f_equal.
+    rewrite reachable12. case_decide; [|lia]. apply bool_decide_eq_true_2.
+    apply elem_of_cons. right. apply elem_of_seq. lia.
+  - apply Forall_fmap_ext_1, Forall_forall. intros i Hi%elem_of_seq.
+    rewrite handed_between_g; [apply NoDup_nil_2|]. rewrite spec12_of_machine. f_equal.
+    rewrite reachable12. case_decide; [lia|done].
 Qed.
 
 (** * Scenarios as the harness runs them (C09): the oracle holds of every model run *)
